@@ -139,7 +139,7 @@ SNIPPETS: list[tuple[str, str]] = [
     ("module:match-statement", "def f{n}(a: object) -> int:\n    match a:\n        case int(x):\n            return x\n        case [1, *rest]:\n            return len(rest)\n        case {{'k': v}}:\n            return 1\n        case _:\n            return 0\n"),
     ("module:pep695", "type Alias{n} = list[int]\n\n\ndef f{n}[U](a: U) -> U:\n    return a\n\n\nclass C{n}[W]:\n    def get(self) -> W: ...\n"),
     ("module:unicode", "def f{n}(a: str = 'ünïcödé ✓', b: str = '\\u2603') -> str:\n    \"\"\"Dócstring with ünicode ✓ and emoji 🎉.\"\"\"\n    return a\n"),
-    ("names:underscore-shapes", "def a__b{n}(x__y: int, _z: int, w_: int, __v: int = 0, u__: str = 'u') -> None: ...\n\n\nclass snake_case_class_{n}:\n    q__r: int = 1\n    s_: int = 2\n\n    def m__n(self, o__p: int) -> None: ...\n\n    def __dunder_thing__(self) -> None: ...\n"),
+    ("names:underscore-shapes", "def a__b{n}(x__y: int, _z: int, w_: int, __v: int = 0, u__: str = 'u') -> None: ...\n\n\nclass Data__Frame{n}:\n    def go(self) -> None: ...\n\n\nclass __Odd__Name{n}__:\n    pass\n\n\nclass snake_case_class_{n}:\n    q__r: int = 1\n    s_: int = 2\n\n    def m__n(self, o__p: int) -> None: ...\n\n    def __dunder_thing__(self) -> None: ...\n"),
     ("module:big-function", "def f{n}(" + ", ".join(f"p{i}: int = {i}" for i in range(60)) + ") -> int:\n    return 0\n"),
 ]
 
